@@ -25,6 +25,7 @@ type parked struct {
 }
 
 type slotState struct {
+	announce int // bytes by which every Save over-announces (0 in all but one configuration)
 	b        *sonic.ByteBuffer
 	seq      *sonic.SlotSequencer
 	off      *sonic.SlotOffsetter
@@ -129,12 +130,14 @@ func (s *slotState) park(n int) ([]byte, sonic.Slot) {
 		t := s.ahead
 		s.ahead = nil
 		s.b.Commit(len(t))
-		return t, s.b.Save(len(t))
+		return t, s.b.Save(len(t) + s.announce)
 	}
 	t := s.fresh(n)
 	s.b.Write(t)
 	s.b.Commit(n)
-	return t, s.b.Save(n)
+	// (announce > 0: the caller parks a packet by the length its header announces although fewer bytes arrived — a
+	// truncated datagram; Save clamps to what is there, and everything downstream must see the clamped slot)
+	return t, s.b.Save(n + s.announce)
 }
 
 // writeAhead puts a packet into the buffer's write area without committing it.
@@ -148,6 +151,9 @@ func (s *slotState) push(seq, n int) *engine.Violation {
 		n = len(s.ahead)
 	}
 	t, raw := s.park(n)
+	if raw.Length != n {
+		return slotViol("slots.Save/length", "Save(%d) with %d bytes readable returned a slot of length %d", n+s.announce, n, raw.Length)
+	}
 	ok, err := s.seq.Push(seq, raw)
 	dup := false
 	for _, p := range s.parked {
@@ -221,6 +227,10 @@ func seqSpec(maxSlots, maxBytes, maxSeq, maxLen int, ahead ...bool) *engine.BFS[
 	if len(ahead) > 1 && ahead[1] {
 		minLen = 0 // an empty packet (length 0) is a packet too: it occupies a slot and no bytes
 	}
+	announce := 0
+	if len(ahead) > 2 && ahead[2] {
+		announce = 2
+	}
 	type od struct {
 		kind   byte
 		seq, n int
@@ -244,9 +254,9 @@ func seqSpec(maxSlots, maxBytes, maxSeq, maxLen int, ahead ...bool) *engine.BFS[
 	ops = append(ops, "reset")
 	ods = append(ods, od{'r', 0, 0})
 	return &engine.BFS[*slotState]{
-		Name: fmt.Sprintf("seq,maxSlots=%d,maxBytes=%d,maxSeq=%d,maxLen=%d,ahead=%v,minLen=%d", maxSlots, maxBytes, maxSeq, maxLen, withAhead, minLen),
+		Name: fmt.Sprintf("seq,maxSlots=%d,maxBytes=%d,maxSeq=%d,maxLen=%d,ahead=%v,minLen=%d,announce=%d", maxSlots, maxBytes, maxSeq, maxLen, withAhead, minLen, announce),
 		New: func() *slotState {
-			return &slotState{b: sonic.NewByteBuffer(), seq: sonic.NewSlotSequencer(maxSlots, maxBytes), maxSlots: maxSlots, maxBytes: maxBytes}
+			return &slotState{b: sonic.NewByteBuffer(), seq: sonic.NewSlotSequencer(maxSlots, maxBytes), maxSlots: maxSlots, maxBytes: maxBytes, announce: announce}
 		},
 		Ops: ops,
 		Apply: func(s *slotState, op int) (bool, *engine.Violation) {
@@ -333,9 +343,11 @@ func c20Specs(tier string) []*engine.BFS[*slotState] {
 		// (2,16,3,4) does not reach its fixpoint within millions of states; (2,12,3,3) and (3,9,3,4) do, and keep
 		// the shape "byte capacity far above what the slots can hold at once"
 		// (the written-ahead packet multiplies the states: it is explored with two of the four sequencers)
-		return []*engine.BFS[*slotState]{seqSpec(3, 6, 4, 3), seqSpec(4, 8, 5, 3, false), seqSpec(2, 12, 3, 3), seqSpec(3, 9, 3, 4, false), seqSpec(3, 6, 4, 3, true, true), seqSpec(3, 5, 3, 2, false, true), offSpec(6, 3, 4), offSpec(10, 3, 5)}
+		return []*engine.BFS[*slotState]{seqSpec(3, 6, 4, 3), seqSpec(4, 8, 5, 3, false), seqSpec(2, 12, 3, 3), seqSpec(3, 9, 3, 4, false), seqSpec(3, 5, 3, 2, false, true, true), seqSpec(3, 6, 3, 3, true, false, true), offSpec(6, 3, 4), offSpec(10, 3, 5),
+			// the largest one last: if the wall-clock cap cuts anything, it is this one (reported as not exhaustive)
+			seqSpec(3, 6, 4, 3, true, true)}
 	}
-	return []*engine.BFS[*slotState]{seqSpec(3, 6, 4, 3), seqSpec(2, 10, 3, 4, false), seqSpec(3, 5, 3, 2, false, true), offSpec(6, 3, 3)}
+	return []*engine.BFS[*slotState]{seqSpec(3, 6, 4, 3), seqSpec(2, 10, 3, 4, false), seqSpec(3, 5, 3, 2, false, true, true), offSpec(6, 3, 3)}
 }
 
 func C20(tier string) *engine.Report {
